@@ -75,7 +75,7 @@ def coq_value(tv):
 # ---------------------------------------------------------------- AST constructors
 def var(n): return ("var", n)
 def const(c): return ("const", c)
-def kint(z): return ("int", z)
+def kint(z, text=None): return ("int", z) if text is None else ("int", z, text)     # text: the literal as written (leading zeros)
 def kreal(text): return ("real", text)
 def kstr(s): return ("str", s)
 def kbool(b): return ("bool", b)
@@ -145,7 +145,7 @@ class Printer:
     def p_const(self, c):
         k = c[0]
         if k == "int":
-            return self.tok(str(c[1]))
+            return self.tok(c[2] if len(c) > 2 else str(c[1]))
         if k == "real":
             return self.tok(c[1])
         if k == "str":
@@ -805,6 +805,8 @@ def run_lang(cases, timeout=150):
             p["twice"] = True
         if c.get("reinject"):
             p["reinject"] = True
+        if c.get("inject2"):
+            p["inject2"] = c["inject2"]
         if c.get("hold"):
             p["hold"] = c["hold"]
         if c.get("model"):
@@ -1215,7 +1217,7 @@ def lang_check(run, pid, make_cases, rule_text, assumptions, nontrivial, focus_c
     next_id = max([c["id"] for c in cases] + [0]) + 1          # ids stay small: they are nat numerals inside Coq
     for c, o in list(zip(cases, obs)):
         if c.get("reinject") and o.get("second") and not o.get("compile"):
-            c2 = dict(c, id=next_id, reinject=False, tree=False, reinjected=True)
+            c2 = dict(c, id=next_id, reinject=False, tree=False, reinjected=True, inject=c.get("inject2") or c["inject"], inject2=None, first_inject=c["inject"])
             next_id += 1
             cases.append(c2)
             obs.append(dict(o["second"], id=c2["id"]))
@@ -1240,7 +1242,7 @@ def lang_check(run, pid, make_cases, rule_text, assumptions, nontrivial, focus_c
             exp = " | listener: ...%s... | grammar reading: ...%s..." % (a[max(0, j - 60):j + 60], b[max(0, j - 60):j + 60])
         if c.get("reinjected"):
             sig["second_execution"] = "fresh objects re-injected under the same names"
-        run.report(sig, {"text": c["text"], "inject": c["inject"], "rule": c["rule"], "reinject": bool(c.get("reinjected")), "observation": {k: o.get(k) for k in ("class", "ret", "cites", "calls", "store", "errmsg", "compile")},
+        run.report(sig, {"text": c["text"], "inject": c["inject"], "rule": c["rule"], "reinject": bool(c.get("reinjected")), "first_inject": c.get("first_inject"), "observation": {k: o.get(k) for k in ("class", "ret", "cites", "calls", "store", "errmsg", "compile")},
                          "disagreement": LCODES[code]},
                    "%s: %s — rule text: %s%s" % (pid, LCODES[code], c["text"].replace("\n", " | ")[:400], exp))
     if pid in ("C02", "C09", "C11", "C15", "C18", "C20") and ok:
@@ -1283,7 +1285,11 @@ def replay_lang(run, data):
     coq_make()
     rp = data["replay"]
     print("rule text:\n" + rp["text"])
-    obs = run_lang([{"id": 0, "text": rp["text"], "rule": rp["rule"], "inject": rp["inject"], "tree": False}])
+    if rp.get("reinject"):      # the recorded observation is the SECOND execution, after fresh objects were bound to the same names
+        obs = run_lang([{"id": 0, "text": rp["text"], "rule": rp["rule"], "inject": rp.get("first_inject") or rp["inject"], "inject2": rp["inject"], "reinject": True, "tree": False}])
+        obs = [dict(obs[0].get("second") or {}, id=0)]
+    else:
+        obs = run_lang([{"id": 0, "text": rp["text"], "rule": rp["rule"], "inject": rp["inject"], "tree": False}])
     print("observation now:", json.dumps({k: obs[0].get(k) for k in ("class", "ret", "cites", "errmsg")})[:800])
     print("recorded        :", json.dumps({k: rp["observation"].get(k) for k in ("class", "ret", "cites")})[:800])
     same = all(obs[0].get(k) == rp["observation"].get(k) for k in ("class", "ret", "cites"))
